@@ -225,7 +225,7 @@ func bomAfterBlank(s string) bool {
 
 var Tokens = []string{"\n", "\r", "data", "id", "event", "retry", ":", " ", "x", "1", "+", "\x00", "\xEF\xBB\xBF", "\xff"}
 
-var Lines = []string{"", "data:x", "data: x", "data", "id:a", "id:", "id:\x00", "event:t", "retry:1", ":c", "foo:1", "\xEF\xBB\xBFdata:x", "retry:+1", "retry:1x", "retry: -0"}
+var Lines = []string{"", "data:x", "data: x", "data", "id:a", "id:", "id:\x00", "event:t", "retry:1", ":c", "foo:1", "\xEF\xBB\xBFdata:x", "retry:+1", "retry:1x", "retry: -0", "data:  x", "id:  a "}
 var Terms = []string{"\n", "\r", "\r\n"}
 
 // segmentations calls f with every cut set in the family for a string of n bytes.
